@@ -100,6 +100,23 @@ pub fn check_call(out: &mut Out, name: &str, tree: &Option<Node>, arg: &RV, rout
             if !ok {
                 out.violation(&format!("builtin/{}", name), key.clone(), e.show(), got.show());
             }
+            // one rendering of a value: str::from of a non-string is the Display of the value (src/value/display.rs),
+            // alone and as an element of a tuple
+            if let (true, Got::Val(RV::Str(s))) = (name == "str::from" && !matches!(arg, RV::Str(_)), &got) {
+                let shown = arg.to_value().to_string();
+                if *s != shown {
+                    out.violation("builtin/str::from-vs-display", key.clone(), format!("{:?}, the Display of the value", shown), format!("{:?}", s));
+                }
+                if matches!(arg, RV::Int(_) | RV::Float(_) | RV::Bool(_)) {
+                    let g = api::eval_str("str::from((x, 1))", &c);
+                    out.eval();
+                    let want = format!("({}, 1)", s);
+                    if !matches!(&g, Got::Val(RV::Str(t)) if *t == want) {
+                        out.violation("builtin/str::from-compositional", format!("str::from(({}, 1))", arg.show()), format!("{:?}: the element rendered as str::from renders it alone", want), g.show());
+                    }
+                }
+                out.count("str::from renderings compared with Display and inside a tuple");
+            }
             match &got {
                 Got::Val(v) => out.seen("outcome classes", &format!("{} -> {:?}", name, v.ty())),
                 Got::Err(..) => out.seen("outcome classes", &format!("{} -> error", name)),
